@@ -1002,7 +1002,7 @@ func runC15(ctx *core.Ctx) {
 		"the engine's run-count/row-count/partition guards (10000 each) cannot be observed through the public API; cases whose path count through the unrolled pattern's position automaton (an upper bound on the engine's partial matches per partition) exceeds 2000 are redrawn, so the guards cannot be reached",
 		"empty matches are not considered matches; after SKIP TO FIRST/LAST <var> whose target is the match's first row or absent (an error in SQL:2016) only validity and MATCH_NUMBER are checked for the rest of that partition",
 		"the preference order among equal-length matches is not checked; for reluctant quantifiers the length clause is not checked")
-	n := ctx.N(300, 10000)
+	n := ctx.N(3000, 150000)
 	ctx.Cases("c15", n, workers(), func(i int, r *rand.Rand) {
 		c := genC15(core.CaseRef{Stream: "c15", Index: i}, r)
 		if c == nil {
